@@ -117,14 +117,21 @@ def link_kinds(entries):
     return {(e[2], e[1] != e[4], bool(e[5])) for e in entries}
 
 
-def fc_dict(entries, nfaces, facedim, nm=lambda x: x, order=None):
-    """entries -> xgcm face_connections. `order`: optional permutation of entry indices fixing dict insertion order"""
+def fc_dict(entries, nfaces, facedim, nm=lambda x: x, order=None, npbool=False):
+    """entries -> xgcm face_connections. `order`: optional permutation of entry indices fixing dict insertion order
+    (of the faces and of the axes within a face); `npbool`: spell the reverse flags as numpy booleans, as a table
+    computed with numpy comparisons would"""
     tab = {}
     idx = list(range(len(entries))) if order is None else list(order)
     faces = list(range(nfaces))
+    flag = bool
+    if npbool:
+        import numpy as np
+
+        flag = np.bool_
     for k in idx:
         f, a, sd, nf, na, rev = entries[k]
-        tab.setdefault(f, {}).setdefault(nm(a), [None, None])[sd] = (nf, nm(na), bool(rev))
+        tab.setdefault(f, {}).setdefault(nm(a), [None, None])[sd] = (nf, nm(na), flag(rev))
     for f in faces:
         tab.setdefault(f, {})
     return {facedim: {f: {a: tuple(v) for a, v in tab[f].items()} for f in tab}}
